@@ -47,6 +47,8 @@ PY
   exit 0
 fi
 cd /verif
+# one user of /repo's working tree at a time
+exec 8>/var/tmp/verif-repo.lock; flock 8
 # the evidence files of the unchanged tree must survive runs against a changed tree
 EVBAK=$(mktemp -d /var/tmp/evidence.bak.XXXXXX); cp -a /verif/evidence/. "$EVBAK/"
 git -C /repo apply "$OUT/patch.diff" || { echo "patch does not apply to /repo"; exit 1; }
@@ -59,6 +61,7 @@ for c in $CHECKS; do
 done
 git -C /repo checkout -- .
 cp -a "$EVBAK/." /verif/evidence/; rm -rf "$EVBAK"
+flock -u 8
 echo "checks:$res"
 python3 - "$ID" "$with" "$without" "$suite" "$res" <<'PY'
 import json,sys
